@@ -294,6 +294,20 @@ func runSupervisor(name string, jobs int, tmo time.Duration, extra []string) {
 					}
 				}
 			}
+			if bad == "hang" {
+				// a deadline can also be missed because the machine is overloaded: a hang is
+				// reported only when it reproduces on a fresh worker
+				first := p.errBuf.String()
+				p.kill()
+				if !boot() {
+					os.Exit(3)
+				}
+				p.errBuf.Reset()
+				resp, bad = p.call(j.line, tmo)
+				if bad == "hang" {
+					p.errBuf.Write([]byte("\n--- first attempt ---\n" + first))
+				}
+			}
 			if bad != "" {
 				var req map[string]interface{}
 				json.Unmarshal(j.line, &req)
